@@ -18,6 +18,7 @@ type (
 	EphemeralWalletStore struct {
 		mu          sync.Mutex
 		tip         types.ChainIndex
+		parents     map[types.ChainIndex]types.ChainIndex // applied index -> tip it was applied on
 		utxos       map[types.SiacoinOutputID]types.SiacoinElement
 		events      []wallet.Event
 		broadcasted []wallet.BroadcastedSet
@@ -65,6 +66,10 @@ func (et *ephemeralWalletUpdateTxn) WalletApplyIndex(index types.ChainIndex, cre
 
 	// add events
 	et.store.events = append(et.store.events, events...)
+	if et.store.parents == nil {
+		et.store.parents = make(map[types.ChainIndex]types.ChainIndex)
+	}
+	et.store.parents[index] = et.store.tip
 	et.store.tip = index
 	return nil
 }
@@ -89,7 +94,15 @@ func (et *ephemeralWalletUpdateTxn) WalletRevertIndex(index types.ChainIndex, re
 	for _, se := range unspent {
 		et.store.utxos[se.ID] = se.Copy()
 	}
-	et.store.tip = index
+	// after reverting index the store is at the block index was applied on,
+	// not at index itself: if the update ends here, the next one must start
+	// from the parent
+	if parent, ok := et.store.parents[index]; ok {
+		et.store.tip = parent
+		delete(et.store.parents, index)
+	} else {
+		et.store.tip = index
+	}
 	return nil
 }
 
